@@ -2,7 +2,7 @@
    Property theorems only; proofs live in Proofs/PruneP.v.  All statements are unguarded:
    they hold for every finite dependency graph (cycles, self-loops, dangling names included). *)
 From Coq Require Import List String Bool.
-From AC Require Import Model.Prune Proofs.PruneP.
+From AC Require Import Gql.Schema Model.Prune Model.PruneDoc Proofs.PruneP Proofs.PruneDocP.
 Import ListNotations.
 Local Open Scope string_scope.
 
@@ -136,6 +136,25 @@ Example C09_derive_example :
                "typing:Optional"].
 Proof. vm_compute. repeat split. Qed.
 
+(* "which selections reach which enums" is inside the model (Model/PruneDoc.v, Gql/Schema.v vocabulary): the walk
+   over a selection set returns exactly the enums reachable from it - enum-typed fields selected directly, in
+   sub-selections, through fragment spreads and inline fragments, to any depth - whenever it returns (fuel) *)
+Theorem C09_sel_enums_is_reachability : forall S frs fuel parent sels l,
+  sel_enums fuel S frs parent sels = Some l -> forall e, In e l <-> reaches S frs parent sels e.
+Proof. exact sel_enums_is_reachability. Qed.
+Print Assumptions C09_sel_enums_is_reachability.
+
+(* and the four lists fed to the pruning pipeline are: enums reachable from some operation; enums reachable from a
+   class-generating fragment no operation spreads; the enum / input types of the operations' variables *)
+Theorem C09_doc_analysis_spec : forall fuel S frs ops d, doc_analysis fuel S frs ops = Some d ->
+  (forall e, In e (de_res_enums d) <-> exists o, In o ops /\ reaches S frs (op_root o) (op_sel o) e) /\
+  (forall e, In e (de_frag_enums d) -> exists f, In f frs /\ unpacks_by_definition S f = false /\
+                                                 reaches S frs (fr_on f) (fr_sel f) e) /\
+  (forall t, In t (de_arg_enums d) <-> is_enum S t = true /\ exists o v, In o ops /\ In v (op_vars o) /\ named (snd v) = t) /\
+  (forall t, In t (de_arg_inputs d) <-> is_input S t = true /\ exists o v, In o ops /\ In v (op_vars o) /\ named (snd v) = t).
+Proof. exact doc_analysis_spec. Qed.
+Print Assumptions C09_doc_analysis_spec.
+
 (* ---- non-vacuity: a cyclic graph with a self-loop, a dangling name and an unreachable component ---- *)
 Definition g_ex : graph :=
   [("A", ["B"; "C"; "B"]); ("B", ["A"; "B"]); ("C", ["Missing"]); ("D", ["A"]); ("E", [])].
@@ -187,3 +206,17 @@ Example C09_imports_example :
   module_imports p_ex [("B", "class B")] =
     ["typing:Optional"; "typing:Any"; ".base_model:BaseModel"; "datetime:datetime"; "pathlib:Path"; "m:parse_p"].
 Proof. vm_compute. repeat split. Qed.
+
+Definition S_doc : schema := {|
+  s_types := [("Query", DObject [] [("mid", TNamed "Mid")]); ("Kind", DEnum ["A"; "B"]); ("Deep", DEnum ["X"]);
+              ("Mid", DObject [] [("kind", TNonNull (TNamed "Kind")); ("leaf", TList (TNamed "Leaf"))]);
+              ("Leaf", DObject [] [("deep", TNamed "Deep")]); ("InA", DInput)];
+  s_query := Some "Query"; s_mutation := None; s_subscription := None |}.
+Example C09_doc_example :
+  doc_analysis 50 S_doc
+    [ {| fr_name := "F"; fr_on := "Mid"; fr_mixins := []; fr_sel := [SField None "leaf" false [] (Some [SField None "deep" false [] None])] |};
+      {| fr_name := "Unused"; fr_on := "Mid"; fr_mixins := []; fr_sel := [SField None "kind" false [] None] |} ]
+    [ {| op_name := "Q"; op_root := "Query"; op_vars := [("a", TNonNull (TNamed "InA")); ("k", TList (TNamed "Kind"))];
+         op_sel := [SField None "mid" false [] (Some [SInline (Some "Mid") true [SSpread "F" false]])] |} ]
+  = Some {| de_arg_inputs := ["InA"]; de_arg_enums := ["Kind"]; de_res_enums := ["Deep"]; de_frag_enums := ["Kind"] |}.
+Proof. vm_compute. reflexivity. Qed.
